@@ -183,5 +183,32 @@ class ArgDict(FunctionContract):
         return [("every-argument-under-its-position-or-name", B(isinstance(r, VKindDict) and r.d == {"0": "p0", "1": "p1", "a": "ka", "b": "kb"}))]
 
 
+class MethodResolveArgs(FunctionContract):
+    """Function.resolve_args(arg_dict): exactly dagrt.utils.resolve_args(self.arg_names, self.default_dict, arg_dict) - the
+    function whose contract is Python's call binding (C01: resolve_args); every get_result_kinds reads its arguments
+    through it, in declaration order whatever order the call wrote them in"""
+    prop = "C09"
+    relpath = "dagrt/function_registry.py"
+    qualname = "Function.resolve_args"
+
+    def params(self, ctx):
+        ctx.env["self"] = VObj(TObj("Function", {}), {"arg_names": VPy("<self.arg_names>"), "default_dict": VPy("<self.default_dict>")})
+        ctx.env["arg_dict"] = VPy("<arg_dict>")
+        self.log = []
+
+    def m_resolve(self, ctx, it, args, kw):
+        self.log.append((tuple(getattr(ctx.deref(a), "py", "?") for a in args), tuple(sorted(kw))))
+        return VPy("<utils.resolve_args(...)>")
+
+    names = property(lambda self: {"resolve_args": VFunc("resolve_args", self.m_resolve)})
+
+    def ensures(self, st):
+        r = st._deref(st.result)
+        ok = (self.log == [(("<self.arg_names>", "<self.default_dict>", "<arg_dict>"), ())]
+              and isinstance(r, VPy) and r.py == "<utils.resolve_args(...)>")
+        return [("is-dagrt.utils.resolve_args-on-the-function's-own-argument-names-and-defaults(nothing-else)", z3.BoolVal(ok))]
+
+
 def units():
-    return [FunctionUnit(GenericCall(True)), FunctionUnit(GenericCall(False)), FunctionUnit(ArgDict())]
+    return [FunctionUnit(GenericCall(True)), FunctionUnit(GenericCall(False)), FunctionUnit(ArgDict()),
+            FunctionUnit(MethodResolveArgs())]
